@@ -64,6 +64,27 @@ func propertyFails(prop, op, res string) (why string) { return propertyFailsL(pr
 
 // lean: the model's result line for the same op when known ("" otherwise); only C03 uses it, where the
 // model side of `encspec` is the declarative RFC rendering, i.e. the specification itself.
+// reuseFails: decoding B into a receiver that decoded A before must give what a fresh receiver gives for B
+func reuseFails(base, kind, args, res string) string {
+	f := fieldsOf(args)
+	if len(f) != 2 {
+		return ""
+	}
+	fresh := ""
+	switch base {
+	case "reuse":
+		fresh = execOp("dec." + kind + " " + f[1])
+	case "ccfbmetric":
+		fresh = execOp("ccfbmetric.dec " + f[1])
+	default:
+		return ""
+	}
+	if fresh != res {
+		return "decoding into a value used before gives " + clip(res, 40) + ", into a fresh one " + clip(fresh, 40)
+	}
+	return ""
+}
+
 func propertyFailsL(prop, op, res, lean string) (why string) {
 	defer func() {
 		if r := recover(); r != nil {
@@ -79,6 +100,14 @@ func propertyFailsL(prop, op, res, lean string) (why string) {
 		base, kind = name[:i], name[i+1:]
 	}
 	isOK := hasPrefix(res, "ok")
+	if base == "reuse" || (base == "ccfbmetric" && kind == "reuse") {
+		switch prop {
+		case "C11", "C13", "C14", "C16", "C10", "C02":
+			if w := reuseFails(base, kind, args, res); w != "" {
+				return w
+			}
+		}
+	}
 	switch prop {
 	case "C01":
 		if base == "reuse" && (hasPrefix(res, "panic") || hasPrefix(res, "blowup")) {
@@ -99,6 +128,9 @@ func propertyFailsL(prop, op, res, lean string) (why string) {
 			}
 		}
 	case "C02", "C16":
+		if base == "rembto" {
+			return rembtoOracle(args, res)
+		}
 		if base == "crt" {
 			return crtOracle(args, res)
 		}
@@ -137,6 +169,18 @@ func propertyFailsL(prop, op, res, lean string) (why string) {
 			}
 		}
 	case "C04":
+		if (base == "dec" || base == "udec" || base == "decv") && hasPrefix(res, "panic") {
+			return "decoder panicked"
+		}
+		if base == "udec" && isOK {
+			b := NewR(args).H()
+			if k := dispatchKind(b); (k == "SR" || k == "RR" || k == "SDES" || k == "BYE") && len(b) >= 4 {
+				l := (int(b[2])<<8 | int(b[3]) + 1) * 4
+				if l <= len(b) && countInflated(k, b[:l]) {
+					return "header count exceeds the elements present in the first packet, yet the datagram is accepted"
+				}
+			}
+		}
 		if base == "reuse" && isOK {
 			if f := fieldsOf(args); len(f) == 2 {
 				if fresh := execOp("dec." + kind + " " + f[1]); hasPrefix(fresh, "ok") && fresh != res {
@@ -292,6 +336,9 @@ func propertyFailsL(prop, op, res, lean string) (why string) {
 			}
 		}
 	case "C08":
+		if base == "rembto" {
+			return rembtoOracle(args, res)
+		}
 		if base == "enc" && isOK {
 			if why := limitExceeded(kind, args); why != "" {
 				return "Marshal accepted a value beyond a wire limit: " + why
@@ -418,14 +465,22 @@ func propertyFailsL(prop, op, res, lean string) (why string) {
 			}
 		}
 	case "C12":
+		if base == "plist2" && isOK {
+			p := splitSemi(res[3:])
+			a := NewR(args)
+			id, bm := a.U(), a.U()
+			if len(p) == 3 && (p[0] != p[1] || p[2] != fmt.Sprintf("%d %d", id, bm)) {
+				return "reading a NackPair (PacketList / Range) changes it: a second PacketList gives [" + clip(p[1], 40) + "] after [" + clip(p[0], 40) + "]"
+			}
+		}
 		return nackOracle(base, args, res)
 	case "C13":
 		if base == "dec" && kind == "TWCC" && isOK {
 			return twccOracle(NewR(args).H(), res[3:])
 		}
 	case "C14":
-		if base == "rembto" && hasPrefix(res, "mutated") {
-			return res
+		if base == "rembto" {
+			return rembtoOracle(args, res)
 		}
 		return rembOracle(base, kind, args, res)
 	case "C15":
@@ -555,6 +610,32 @@ func crtOracle(args, res string) string {
 		if canonTokens(ps[i]) != packetTokens(qs[i]) {
 			return fmt.Sprintf("compound member %d (%s) decodes to a different value", i, kindName(ps[i]))
 		}
+	}
+	return ""
+}
+
+// rembtoOracle: MarshalTo into a caller's (dirty) buffer must write exactly what Marshal returns, and nothing behind it
+func rembtoOracle(args, res string) string {
+	if hasPrefix(res, "mutated") {
+		return res
+	}
+	r := NewR(args)
+	p := getBody(r, "REMB").(*rtcp.ReceiverEstimatedMaximumBitrate)
+	bl := r.N()
+	if hasPrefix(res, "ok ") {
+		if len(p.SSRCs) > 255 {
+			return "Marshal accepted a value beyond a wire limit: more than 255 REMB SSRCs (MarshalTo)"
+		}
+		if p.Bitrate < 0 {
+			return "Marshal accepted a value beyond a wire limit: negative REMB bitrate (MarshalTo)"
+		}
+		f := fieldsOf(res)
+		want := execOp("enc.REMB " + bodyTokens(p))
+		if len(f) == 3 && want != "ok "+f[2] {
+			return "MarshalTo into a used buffer writes other bytes than Marshal returns"
+		}
+	} else if res == "err" && wfPacket(p) && bl >= p.MarshalSize() {
+		return "MarshalTo rejects a well-formed value although the buffer is large enough"
 	}
 	return ""
 }
